@@ -59,6 +59,7 @@ import (
 	"github.com/tendermint/tendermint/internal/verif/vr"
 	"github.com/tendermint/tendermint/libs/bits"
 	"github.com/tendermint/tendermint/libs/log"
+	tmrand "github.com/tendermint/tendermint/libs/rand"
 	"github.com/tendermint/tendermint/libs/service"
 	tmsync "github.com/tendermint/tendermint/libs/sync"
 	"github.com/tendermint/tendermint/p2p"
@@ -853,6 +854,9 @@ type c17CResult struct {
 }
 
 func (e *c17Env) run(c c17CCase) (res c17CResult) {
+	// BitArray.PickRandom (used by the gossip routines) draws from the global tmrand source: pin it so
+	// that a case is a deterministic function of its description
+	tmrand.Seed(17)
 	n := e.newNode(c.Node)
 	defer n.stop()
 	peer := newC17Peer("hostile-peer")
@@ -906,6 +910,9 @@ func (e *c17Env) run(c c17CCase) (res c17CResult) {
 	if handled > 0 {
 		out += "+queued"
 	}
+	if n.cs.Height > h0 {
+		out += "+committed" // the peer's message completed a commit (e.g. it was the real missing block part)
+	}
 	if smPanic != "" {
 		res.key = "consensus/state.go:handleMsg:panic:" + c.Msg.Type + ": " + smPanic
 		res.what = "a peer message made the consensus state machine panic (production: CONSENSUS FAILURE, receiveRoutine halts): " + desc
@@ -935,7 +942,7 @@ func (e *c17Env) run(c c17CCase) (res c17CResult) {
 		res.key = "consensus/state.go:handleMsg:panic-after-hostile-input:" + c.Msg.Type + ": " + p
 		res.what = "after the hostile message, properly signed precommits/parts made the state machine panic: " + desc
 		return
-	} else if !ok || n.cs.Height != h0+1 {
+	} else if !ok { // ok = the height the node was at when the script started got committed
 		res.key = "consensus/state.go:node-does-not-commit-after-hostile-input:" + c.Msg.Type + ":" + c.Msg.Field
 		res.what = fmt.Sprintf("after the hostile message, +2/3 precommits and the block parts no longer commit height %d (node at %d/%d/%v): %s", h0, n.cs.Height, n.cs.Round, n.cs.Step, desc)
 		return
